@@ -251,6 +251,10 @@ class ElementList(MutableSequence):
             child._parent = previous_parent  # the child has been refused
             raise
         if allowed:
+            if previous_parent is not None and previous_parent is not self.element and \
+                    any(c is child for c in previous_parent.children):
+                # an element is the child of one parent only: it leaves the previous one
+                previous_parent.children.remove(child)
             try:
                 if by_name_index == -1:
                     self.indexes[child.name].append(child)
@@ -417,6 +421,11 @@ class ElementList(MutableSequence):
             self.remove(old_child)
             self.append(new_child)
         else:
+            if new_child is old_child:
+                return
+            if any(c is new_child for c in self.list):
+                # one of the element's own children replaces another one: it leaves its previous position
+                self.remove(new_child)
             list_index = self.list.index(old_child)
             by_name_index = self.indexes[old_child.name].index(old_child)
             self.remove(old_child)
